@@ -135,6 +135,10 @@ def run(ctx):
                                     jobs.append((ctx.repo, "convolve_contract", D, N, M, 2, 3, 1, 1, 2, flags, stride, padding, None, rd))
             # image dilation (transposed convolution) with explicit / integer / VALID padding, odd and even filters
             for ldil in ((2,) * D, (2, 1) if D == 2 else (1, 2, 1)):
+                if not any(flags):
+                    # zero 'same' padding (explicit or by default on a non-toroidal image) with image dilation
+                    for padding in ("SAME", None):
+                        jobs.append((ctx.repo, "convolve", D, N, (3,) * D, 1, 0, 1, 2, 2, flags, 1, padding, list(ldil), 1))
                 for padding in ([[1, 1]] * D, "VALID", 2):
                     for M in ((3,) * D, (2,) * D, (2, 3) if D == 2 else (2, 3, 2)):
                         if not th and dhash((D, flags, str(ldil), str(padding), M)) % 4:
